@@ -9,6 +9,10 @@
 (* man[g] the manifest: one entry per change of content, holding the       *)
 (* fingerprint of the stored group file - abstractly, the list itself.     *)
 (***************************************************************************)
+\* Add(g, l) abstracts every loading route of the paths manager: add_named_paths(name, paths), set_named_paths({name: paths}),
+\* add_named_paths_from_file (a file of csvpaths joined by the line "---- CSVPATH ----"), add_named_paths_from_dir (a directory of
+\* such files, the group named after the file) and add_named_paths_from_json ({name: [files]}); the replay picks one route per
+\* history (the file routes strip each csvpath, so the stored bytes of one list are route-specific).
 EXTENDS Naturals, Sequences, FiniteSets, TLC, Json
 
 CONSTANTS Groups, NMembers, MaxList, MaxLen
